@@ -87,7 +87,68 @@ type Case struct {
 	ErrsAsMiss bool      `json:"errsAsMiss,omitempty"`
 	Steps      []Step    `json:"steps,omitempty"`
 	Conc       *Workload `json:"conc,omitempty"`
+	// EOFWithData: the readers of the inner storage deliver their last bytes together with io.EOF (legal for
+	// an io.Reader; network and pipe based backends do it), seeded defect S-C20-3.
+	EOFWithData bool `json:"eofWithData,omitempty"`
 }
+
+// dataEOFReader returns the final bytes and io.EOF in the same Read call.
+type dataEOFReader struct {
+	rc   io.ReadCloser
+	next []byte
+	err  error
+}
+
+func (d *dataEOFReader) Read(p []byte) (int, error) {
+	if len(p) == 0 {
+		return 0, nil
+	}
+	// one byte of look-ahead decides whether this chunk is the last one
+	if d.next == nil && d.err == nil {
+		b := make([]byte, 1)
+		n, err := io.ReadFull(d.rc, b)
+		if n == 1 {
+			d.next = b
+		}
+		if err != nil {
+			d.err = err
+		}
+	}
+	if d.next == nil {
+		if d.err == io.ErrUnexpectedEOF {
+			return 0, io.EOF
+		}
+		return 0, d.err
+	}
+	n := copy(p, d.next)
+	d.next = nil
+	if n < len(p) && d.err == nil {
+		m, err := d.rc.Read(p[n:])
+		n += m
+		if err != nil {
+			d.err = err
+		}
+	}
+	if d.err == nil {
+		b := make([]byte, 1)
+		k, err := io.ReadFull(d.rc, b)
+		if k == 1 {
+			d.next = b
+		}
+		if err != nil {
+			d.err = err
+		}
+	}
+	if d.next == nil && (d.err == io.EOF || d.err == io.ErrUnexpectedEOF) {
+		return n, io.EOF
+	}
+	if d.next == nil && d.err != nil {
+		return n, d.err
+	}
+	return n, nil
+}
+
+func (d *dataEOFReader) Close() error { return d.rc.Close() }
 
 var names = run.Names{Buckets: []string{"bucket-a", "bucket.b"}, Keys: []string{"a", "a/b", "é %_"}}
 
@@ -134,6 +195,25 @@ func genSeq(t *rapid.T) Case {
 		{Kind: prog.OpPut, B: 1, K: 0, Body: &gen.BodySpec{Kind: "rand", Len: above, Seed: 13}},
 	}
 	ops := cfg.Gen(t)
+	c.EOFWithData = rapid.IntRange(0, 2).Draw(t, "eofWithData") == 0
+	if rapid.IntRange(0, 2).Draw(t, "selfCopy") == 0 {
+		// the S3 idiom for changing metadata / tags / class in place: a copy of an object onto itself with
+		// REPLACE directives, on a key whose head and body are cached, followed by reads (seeded defect S-C20-4)
+		k := rapid.IntRange(0, 1).Draw(t, "selfCopyKey")
+		ct := "application/json"
+		cl := rapid.SampledFrom([]string{"STANDARD", "GLACIER", "STANDARD_IA"}).Draw(t, "selfCopyClass")
+		cp := prog.Op{Kind: prog.OpCopy, B: 0, K: k, SB: 0, SK: k, ReplaceMeta: true, ContentType: &ct,
+			Meta: &prog.Meta{CacheControl: sp("no-store"), User: map[string]string{"reviewed": "yes"}}}
+		switch rapid.IntRange(0, 2).Draw(t, "selfCopyKind") {
+		case 1:
+			cp.ReplaceTags, cp.HasTags, cp.Tags = true, true, map[string]string{"reviewed": "yes"}
+		case 2:
+			cp.Class = &cl
+		}
+		frag := []prog.Op{{Kind: prog.OpGet, B: 0, K: k}, {Kind: prog.OpHead, B: 0, K: k}, cp, {Kind: prog.OpHead, B: 0, K: k}, {Kind: prog.OpGet, B: 0, K: k}}
+		pos := rapid.IntRange(len(cfg.Prelude), len(ops)).Draw(t, "selfCopyPos")
+		ops = append(append(append([]prog.Op{}, ops[:pos]...), frag...), ops[pos:]...)
+	}
 	for _, op := range ops {
 		// explicit version references make most ops fail in unversioned buckets: keep a third of them
 		if (op.Ver != "" || op.SrcVer != "") && rapid.IntRange(0, 2).Draw(t, "keepVer") > 0 {
@@ -296,6 +376,7 @@ func buildCache(kind, dir string, maxObj int64) (cachepkg.Cache, error) {
 type counting struct {
 	delegator.DelegatingStorage
 	heads, gets atomic.Int64
+	eofWithData bool
 	// gate, when armed, holds the next HeadObject: it signals reached and waits for release.
 	gateMu  sync.Mutex
 	reached chan struct{}
@@ -323,7 +404,13 @@ func (c *counting) HeadObject(ctx context.Context, b storage.BucketName, k stora
 }
 func (c *counting) GetObject(ctx context.Context, b storage.BucketName, k storage.ObjectKey, r []storage.ByteRange, o *storage.GetObjectOptions) (*storage.Object, []io.ReadCloser, error) {
 	c.gets.Add(1)
-	return c.Next.GetObject(ctx, b, k, r, o)
+	obj, rcs, err := c.Next.GetObject(ctx, b, k, r, o)
+	if err == nil && c.eofWithData {
+		for i := range rcs {
+			rcs[i] = &dataEOFReader{rc: rcs[i]}
+		}
+	}
+	return obj, rcs, err
 }
 
 // ---- reads ----------------------------------------------------------------------------
@@ -504,7 +591,10 @@ func runSeq(env *ev.Env, c Case) (o ev.Outcome) {
 		o.Failf("harness: cache %s: %v", c.Cache, err)
 		return
 	}
-	cnt := &counting{DelegatingStorage: delegator.Wrap(inst.Storage)}
+	cnt := &counting{DelegatingStorage: delegator.Wrap(inst.Storage), eofWithData: c.EOFWithData}
+	if c.EOFWithData {
+		o.Class("inner-readers-deliver-last-bytes-with-EOF")
+	}
 	mw, err := objectcache.NewStorageMiddleware(cnt, cache, objectcache.Options{MaxObjectSizeBytes: c.MaxObj, CacheReadErrorsAsMiss: c.ErrsAsMiss})
 	if err != nil {
 		o.Failf("harness: middleware: %v", err)
@@ -790,7 +880,7 @@ func runConc(env *ev.Env, c Case) (o ev.Outcome) {
 		o.Failf("harness: cache: %v", err)
 		return
 	}
-	cnt := &counting{DelegatingStorage: delegator.Wrap(inst.Storage)}
+	cnt := &counting{DelegatingStorage: delegator.Wrap(inst.Storage), eofWithData: c.EOFWithData}
 	mw, err := objectcache.NewStorageMiddleware(cnt, cache, objectcache.Options{MaxObjectSizeBytes: c.MaxObj})
 	if err != nil {
 		o.Failf("harness: middleware: %v", err)
